@@ -462,7 +462,18 @@ theorem LInv_stepC {s s' : St} (hI : LInv s) (h : stepC s = some s') : LInv s' :
   case exitPut i =>
     have hral := rAlive_false hI (by rw [hpc]; rfl)
     split at h
-    · cases h
+    · -- the queue is full: the loop is left only when every listed worker has exited
+      split at h
+      · rename_i hall
+        simp only [Option.some.injEq] at h; subst h
+        refine LInv_same hI (by exact ⟨rfl, rfl, rfl, rfl, rfl, rfl, rfl⟩) ?_
+        refine Or.inr ⟨by rw [hpc]; rfl, rfl, ?_, ?_, ?_, ?_⟩
+        · intro hh; rw [hral] at hh; cases hh
+        · intro hh; rcases hh with hh | hh <;> cases hh
+        · intro j hj; cases hj
+        · intro _ wid hwid
+          exact workerExited_all hI (List.all_eq_true.1 hall wid hwid)
+      · cases h
     · try dsimp only at h
       split at h
       · simp only [Option.some.injEq] at h; subst h
